@@ -65,6 +65,7 @@ class PoolWorld(object):
         self.direct_events = []
         self.replace_log = []
         self.pool_info = {}
+        self.session_shutdown_trace = None
         self.viol = []
         pw = self
         base = self.env.conn_class
@@ -193,7 +194,21 @@ class PoolWorld(object):
                 log.append((sys._getframe(1).f_code.co_name, getattr(a[0], 'sim_id', None), id(getattr(fn, '__self__', None))))
             return orig_submit(fn, *a, **kw)
         self.session.submit = submit
+        real_shutdown = self.session.shutdown
+
+        def shutdown():
+            if self.session_shutdown_trace is None:
+                self.session_shutdown_trace = len(self.world.trace)
+            return real_shutdown()
+        self.session.shutdown = shutdown
         return self.session
+
+    def pool_finished_after_session_shutdown(self, pool):
+        """Session.shutdown() had already been called when the last connection of this pool finished its handshake"""
+        if self.session_shutdown_trace is None:
+            return False
+        done = [c.sim_connected_trace for c in self.net.conns if owner_of(c) is pool and c.sim_connected_trace is not None]
+        return bool(done) and max(done) >= self.session_shutdown_trace
 
     def duplicate_replacements(self, pool):
         """connections for which borrow_connection asked for a replacement more than once (the second request found _is_replacing
